@@ -9,9 +9,11 @@ package c16
 import (
 	"fmt"
 	"net/netip"
+	"sync"
 	"testing"
 
 	"verif/kit"
+	"verif/schedx"
 
 	"github.com/mycoria/mycoria/config"
 	"github.com/mycoria/mycoria/m"
@@ -40,6 +42,17 @@ type regExec struct {
 }
 
 func runRegistry(sc regScenario, choices []int) *regExec {
+	bodies, finish := prepareRegistry(sc)
+	ex := &regExec{}
+	ex.res = sched.Run(bodies, choices, 3000)
+	finish(ex)
+	return ex
+}
+
+// prepareRegistry builds a fresh router with its virtual links and returns the
+// thread bodies plus the invariant check to run when they are done.
+func prepareRegistry(sc regScenario) (bodies []func(), finish func(ex *regExec)) {
+	var hmu sync.Mutex // harness bookkeeping (real mutex, no scheduling point)
 	r, err := kit.NewNode(kit.NodeOpts{Name: "R", ID: pool[0], Store: config.Store{}})
 	if err != nil {
 		panic(err)
@@ -59,7 +72,6 @@ func runRegistry(sc regScenario, choices []int) *regExec {
 	for _, ls := range sc.links {
 		links = append(links, &kit.VLink{W: w, From: r, To: peers[ls.peer], Label: ls.label, Lat: 5})
 	}
-	var bodies []func()
 	for _, ops := range sc.threads {
 		ops := ops
 		bodies = append(bodies, func() {
@@ -67,21 +79,27 @@ func runRegistry(sc regScenario, choices []int) *regExec {
 				switch op.kind {
 				case "add":
 					if err := r.Peering().AddLink(links[op.link]); err == nil {
+						hmu.Lock()
 						added[op.link] = true
+						hmu.Unlock()
 					}
 				case "close":
 					// like LinkBase.Close: mark closing, then unregister.
+					hmu.Lock()
 					closed[op.link] = true
+					hmu.Unlock()
 					links[op.link].Close(nil)
 				case "mgrclose":
 					ip := peers[op.peer].Identity().IP
 					// the manager closes whatever link it finds for the peer.
 					if l := r.Peering().GetLink(ip); l != nil {
+						hmu.Lock()
 						for i := range links {
 							if links[i] == l {
 								closed[i] = true
 							}
 						}
+						hmu.Unlock()
 					}
 					r.Peering().CloseLink(ip)
 				case "lookup":
@@ -95,52 +113,82 @@ func runRegistry(sc regScenario, choices []int) *regExec {
 			}
 		})
 	}
-	ex := &regExec{}
-	ex.res = sched.Run(bodies, choices, 3000)
-	// invariant at the quiescent end.
-	bad := func(k, f string, a ...any) { ex.viol = append(ex.viol, [2]string{k, fmt.Sprintf(f, a...)}) }
-	livePeers := map[netip.Addr]bool{}
-	for i, l := range links {
-		live := added[i] && !closed[i] && !l.IsClosing()
-		ip := l.Peer()
-		ex.sig += fmt.Sprintf("l%d:%v/%v ", i, added[i], closed[i])
-		if live {
-			livePeers[ip] = true
-			if got := r.Peering().GetLink(ip); got != l {
-				bad("live-link-not-found-by-peer", "live link %d cannot be found by its peer address", i)
+	finish = func(ex *regExec) {
+		// invariant at the quiescent end.
+		bad := func(k, f string, a ...any) { ex.viol = append(ex.viol, [2]string{k, fmt.Sprintf(f, a...)}) }
+		livePeers := map[netip.Addr]bool{}
+		for i, l := range links {
+			live := added[i] && !closed[i] && !l.IsClosing()
+			ip := l.Peer()
+			ex.sig += fmt.Sprintf("l%d:%v/%v ", i, added[i], closed[i])
+			if live {
+				livePeers[ip] = true
+				if got := r.Peering().GetLink(ip); got != l {
+					bad("live-link-not-found-by-peer", "live link %d cannot be found by its peer address", i)
+				}
+				if got := r.Peering().GetLinkByLabel(l.Label); got != l {
+					bad("live-link-not-found-by-label", "live link %d cannot be found by its label %d", i, l.Label)
+				}
+			} else {
+				if got := r.Peering().GetLink(ip); got == l {
+					bad("dead-link-found-by-peer", "closed / never registered link %d is found by peer address", i)
+				}
+				if got := r.Peering().GetLinkByLabel(l.Label); got == l {
+					bad("dead-link-found-by-label", "closed / never registered link %d is found by its label", i)
+				}
 			}
-			if got := r.Peering().GetLinkByLabel(l.Label); got != l {
-				bad("live-link-not-found-by-label", "live link %d cannot be found by its label %d", i, l.Label)
+		}
+		peerRoutes := map[netip.Addr]bool{}
+		for _, e := range r.RoutingTable().VerifEntries() {
+			if e.Source == m.RouteSourcePeer {
+				peerRoutes[e.DstIP] = true
 			}
-		} else {
-			if got := r.Peering().GetLink(ip); got == l {
-				bad("dead-link-found-by-peer", "closed / never registered link %d is found by peer address", i)
+			if !livePeers[e.NextHop] {
+				bad("route-via-dead-next-hop", "route to %s via %s which has no live link", e.DstIP, e.NextHop)
 			}
-			if got := r.Peering().GetLinkByLabel(l.Label); got == l {
-				bad("dead-link-found-by-label", "closed / never registered link %d is found by its label", i)
+		}
+		for ip := range livePeers {
+			if !peerRoutes[ip] {
+				bad("live-link-without-peer-route", "live link to %s but no direct-peer route", ip)
+			}
+		}
+		for ip := range peerRoutes {
+			if !livePeers[ip] {
+				bad("peer-route-without-live-link", "direct-peer route to %s but no live link", ip)
 			}
 		}
 	}
-	peerRoutes := map[netip.Addr]bool{}
-	for _, e := range r.RoutingTable().VerifEntries() {
-		if e.Source == m.RouteSourcePeer {
-			peerRoutes[e.DstIP] = true
-		}
-		if !livePeers[e.NextHop] {
-			bad("route-via-dead-next-hop", "route to %s via %s which has no live link", e.DstIP, e.NextHop)
+	return bodies, finish
+}
+
+// TestC16Race: the registry scenarios on free-running goroutines under the race
+// detector (supporting evidence next to the exhaustive pass; see schedx.FreeRun).
+func TestC16Race(t *testing.T) {
+	env := kit.GetEnv()
+	rep := kit.NewReport("C16", env)
+	defer func() { _ = rep.Finish(env) }()
+	iters := 300
+	if env.Thorough() {
+		iters = 3000
+	}
+	var n int64
+	for _, sc := range registryScenarios() {
+		for i := 0; i < iters && !env.Expired(); i++ {
+			bodies, finish := prepareRegistry(sc)
+			ex := &regExec{}
+			ex.res.Panics = schedx.FreeRun(bodies)
+			finish(ex)
+			n++
+			for _, p := range ex.res.Panics {
+				rep.Violate("free-running/registry-sched/"+sc.name+"/panic", p, nil)
+			}
+			for _, v := range ex.viol {
+				rep.Violate("free-running/registry-sched/"+sc.name+"/"+v[0], v[1], nil)
+			}
 		}
 	}
-	for ip := range livePeers {
-		if !peerRoutes[ip] {
-			bad("live-link-without-peer-route", "live link to %s but no direct-peer route", ip)
-		}
-	}
-	for ip := range peerRoutes {
-		if !livePeers[ip] {
-			bad("peer-route-without-live-link", "direct-peer route to %s but no live link", ip)
-		}
-	}
-	return ex
+	rep.Add(n, 0, 0, 0)
+	rep.OutcomeN("free-running race-detector pass [iterations]", n)
 }
 
 func registryScenarios() []regScenario {
